@@ -18,14 +18,15 @@ def codeCfg : Cfg :=
     restartClearsLog := Setters.restartClearsLog
     slyParseRestarts := Setters.slyParseRestarts
     objectInitRestarts := Setters.objectInitRestarts
-    readInputRestarts := Setters.readInputRestarts }
+    readInputRestarts := Setters.readInputRestarts
+    setsRecursionLimit := Setters.setsRecursionLimit }
 
 /-! ## What the source says -/
 
 /-- the three facts every isolation theorem below rests on, as extracted from the source on this run -/
 theorem C17_cfg_clean :
     codeCfg.writesClosure = false ∧ codeCfg.readerResetsQueue = true ∧ codeCfg.parseStartsClean ∧
-    Setters.templatesFound = true ∧ Setters.parseChecksLog = true := by
+    Setters.templatesFound = true ∧ Setters.parseChecksLog = true ∧ codeCfg.setsRecursionLimit = false := by
   decide
 
 /-- the world model contains all the process-wide state the source has: the only name under a `global` statement is
@@ -58,8 +59,15 @@ theorem C17_world_covers_shared_state :
        ("montepy/input_parser/syntax_node.py", "nonlocal-rebind", "shortcut"),
        ("montepy/mcnp_object.py", "nonlocal-rebind", "jump_counter"),
        ("montepy/mcnp_object.py", "nonlocal-rebind", "repeat_counter"),
-       ("montepy/surface_collection.py", "setattr", "Surfaces")] := by
-  refine ⟨rfl, rfl, rfl, ?_, rfl⟩
+       ("montepy/surface_collection.py", "setattr", "Surfaces")] ∧
+    -- settings of the INTERPRETER (sys.set*, sys.path, os.chdir / os.environ, warnings filters outside catch_warnings,
+    -- locale, numpy / decimal / random settings, signal, atexit, gc …) are set nowhere but in these two statements of
+    -- montepy/__init__.py, which run once, at import (every history of the property starts after the import).  A call
+    -- inside a function — e.g. `sys.setrecursionlimit` on the path of a read — re-opens this obligation.
+    Setters.processStateCalls =
+      [("montepy/__init__.py", "<module>", "os.environ[...] =", ""),
+       ("montepy/__init__.py", "<module>", "warnings.simplefilter", "")] := by
+  refine ⟨rfl, rfl, rfl, ?_, rfl, rfl⟩
   decide
 
 /-! ## C17_queue — every read starts with an empty queue -/
@@ -74,7 +82,7 @@ theorem C17_queue (queues : PathId → List FileId) (path : PathId) : readStartQ
 
 /-- non-vacuity: a read abandoned by parse_input (a malformed cell after a read card) does leave the queued target
     behind, under the key of its path -/
-example : (step codeCfg 8 World.fresh (.read 0 3 [(0, [.read 5 .ok, .card ⟨1, 1, 1, false⟩, .bad .syntax]), (5, [])] 0)).1.queue
+example : (step codeCfg 8 World.fresh (.read 0 3 [(0, [.read 5 .ok, .card ⟨1, 1, 1, false, 0⟩, .bad .syntax]), (5, [])] 0)).1.queue
     (queueKey codeCfg 3) = [5] := by decide
 
 /-- after ANY history from ANY world — every event failed or not — the next read starts from an empty queue, for
@@ -91,7 +99,7 @@ theorem C17_queue_per_path_unreset_refutes :
         readStartQueue { codeCfg with queuePerPath := true, readerResetsQueue := false } w.queue path = []) := by
   intro h
   have := h (step { codeCfg with queuePerPath := true, readerResetsQueue := false } 8 World.fresh
-    (.read 0 3 [(0, [.read 5 .ok, .card ⟨1, 1, 1, false⟩, .bad .syntax]), (5, [])] 0)).1 3
+    (.read 0 3 [(0, [.read 5 .ok, .card ⟨1, 1, 1, false, 0⟩, .bad .syntax]), (5, [])] 0)).1 3
   revert this
   decide
 
@@ -142,14 +150,14 @@ theorem C17_latch (fuel : Nat) (w : World) (op : Op) : (step codeCfg fuel w op).
     simp only [step, setterGate_local (c := codeCfg) rfl]
     funext k
     by_cases hk : k = d.id <;> simp [hk]
-  | read p path fs top =>
+  | read p path fs top lim =>
     simp only [step]
     split <;> simp [setProblem]
   | setImp p i v => simp only [step, editCard]; split <;> (try split) <;> (try split) <;> simp [setProblem]
   | setVol p i v => simp only [step, editCard]; split <;> (try split) <;> (try split) <;> simp [setProblem]
   | setNum p i n => simp only [step, editCard]; split <;> (try split) <;> (try split) <;> simp [setProblem]
   | removeCard p i => simp only [step]; split <;> (try split) <;> simp [setProblem]
-  | deepcopy a b => simp only [step]; split <;> simp [setProblem]
+  | deepcopy a b => simp only [step]; split <;> (try split) <;> simp [setProblem]
   | write p => simp only [step]; split <;> simp
   | construct n => simp only [step]; split <;> simp
 
@@ -204,7 +212,7 @@ theorem C17_isolate_frame (c : Cfg) (fuel : Nat) (w : World) (op : Op) (B : Prob
     (step c fuel w op).1.problems B = w.problems B := by
   cases op with
   | setter d s v => simp [step]
-  | read p path fs top =>
+  | read p path fs top lim =>
     have hB : B ≠ p := fun e => h (by simp [Op.target, e])
     simp only [step]
     split
@@ -226,9 +234,80 @@ theorem C17_isolate_frame (c : Cfg) (fuel : Nat) (w : World) (op : Op) (B : Prob
     simp only [step]
     split
     · rfl
-    · exact setProblem_other _ _ _ _ hB
+    · split
+      · exact setProblem_other _ _ _ _ hB
+      · rfl
   | write p => simp only [step]; split <;> rfl
   | construct n => simp only [step]; split <;> rfl
+
+/-! ## C17_interp — no operation changes a setting of the interpreter -/
+
+theorem editCard_interp (w : World) (p i : Nat) (f : Problem → Card → Except Err Card) :
+    (editCard w p i f).1.interp = w.interp := by
+  unfold editCard
+  split
+  · rfl
+  · split
+    · rfl
+    · split <;> rfl
+
+/-- the recursion limit (and every other setting of the interpreter the model holds) is the same after an operation as
+    before it: the code as extracted calls `sys.setrecursionlimit` nowhere (`C17_cfg_clean`), for EVERY operation, world,
+    file system and demand `lim` -/
+theorem C17_interp (fuel : Nat) (w : World) (op : Op) : (step codeCfg fuel w op).1.interp = w.interp := by
+  cases op with
+  | setter d s v => simp [step]
+  | read p path fs top lim =>
+    have hl : readLimit codeCfg w.interp lim = w.interp := by
+      simp [readLimit, codeCfg, Setters.setsRecursionLimit]
+    simp only [step]
+    split <;> simp [setProblem, hl]
+  | setImp p i v => exact editCard_interp _ _ _ _
+  | setVol p i v => exact editCard_interp _ _ _ _
+  | setNum p i n => exact editCard_interp _ _ _ _
+  | removeCard p i => simp only [step]; split <;> (try split) <;> simp [setProblem]
+  | deepcopy a b => simp only [step]; split <;> (try split) <;> simp [setProblem]
+  | write p => simp only [step]; split <;> simp
+  | construct n => simp only [step]; split <;> simp
+
+/-- … after ANY history from ANY world -/
+theorem C17_interp_reachable (fuel : Nat) (ops : List Op) (w : World) :
+    (run codeCfg fuel w ops).1.interp = w.interp := by
+  induction ops generalizing w with
+  | nil => rfl
+  | cons op rest ih =>
+    simp only [run]
+    rw [ih, C17_interp]
+
+/-- non-vacuity: the limit matters (a cell of 250 surfaces is not deep-copied at the default limit, one of 101 is), and a
+    read that "demands" 2897 leaves the limit at 1000 in the code as it is -/
+example :
+    let w := (step codeCfg 8 World.fresh (.read 0 0 [(0, [.card ⟨1, 1, 1, false, 249⟩])] 0 2897)).1
+    w.interp.recLimit = 1000 ∧ (step codeCfg 8 w (.deepcopy 0 1)).2 = .err .recursion ∧
+    (step codeCfg 8 (step codeCfg 8 World.fresh (.read 0 0 [(0, [.card ⟨1, 1, 1, false, 100⟩])] 0)).1 (.deepcopy 0 1)).2 = .ok := by
+  decide
+
+/-- non-vacuity and sensitivity: with a `sys.setrecursionlimit` on the path of a read (`setsRecursionLimit = true`) the
+    statement "the outcome of a call does not depend on operations on unrelated problems" is false.  Problem 0 has a cell
+    of 250 surfaces; `copy.deepcopy` of it raises RecursionError in a fresh interpreter, and succeeds after an unrelated
+    problem 1 with a cell of 900 surfaces has been read (the read left the limit at 2897). -/
+theorem C17_limit_raised_refutes :
+    ¬ (∀ (fuel : Nat) (w : World) (pre : List Op) (op : Op),
+        (∀ o ∈ pre, ∀ p, (op.target = some p ∨ op.source = some p) → o.target ≠ some p) →
+        (step { codeCfg with setsRecursionLimit := true } fuel
+            (run { codeCfg with setsRecursionLimit := true } fuel w pre).1 op).2 =
+          (step { codeCfg with setsRecursionLimit := true } fuel w op).2) := by
+  intro h
+  have := h 8 (step { codeCfg with setsRecursionLimit := true } 8 World.fresh
+      (.read 0 0 [(0, [.card ⟨1, 1, 1, false, 249⟩])] 0 1000)).1
+    [.read 1 1 [(0, [.card ⟨1, 1, 1, false, 899⟩])] 0 2897] (.deepcopy 0 2)
+    (by
+      intro o ho p hp
+      simp only [List.mem_cons, List.not_mem_nil, or_false] at ho
+      subst ho
+      rcases hp with hp | hp <;> simp [Op.target, Op.source] at hp ⊢ <;> subst hp <;> decide)
+  revert this
+  decide
 
 /-- the part of a read state that a later input can see when every parse starts clean -/
 def RState.core (s : RState) : List FileId × List Card := (s.queue, s.cards)
@@ -341,10 +420,11 @@ theorem editCard_result (w w' : World) (p i : Nat) (f : Problem → Card → Exc
       | error e => exact ⟨rfl, h⟩
       | ok cd' => simp [setProblem]
 
-/-- the result of an operation, and what it leaves in the problems it can see, depend only on those problems and on
-    the operation — not on the queue, the log, the closure cells or any other problem of the world it runs in -/
+/-- the result of an operation, and what it leaves in the problems it can see, depend only on those problems, on the
+    operation and on the settings of the interpreter (which no operation changes: `C17_interp`) — not on the queue, the
+    log, the closure cells or any other problem of the world it runs in -/
 theorem C17_isolate_result (fuel : Nat) (w w' : World) (op : Op)
-    (h : ∀ p, op.sees p → w.problems p = w'.problems p) :
+    (h : ∀ p, op.sees p → w.problems p = w'.problems p) (hI : w.interp = w'.interp) :
     (step codeCfg fuel w op).2 = (step codeCfg fuel w' op).2 ∧
     ∀ p, op.sees p → (step codeCfg fuel w op).1.problems p = (step codeCfg fuel w' op).1.problems p := by
   cases op with
@@ -363,7 +443,7 @@ theorem C17_isolate_result (fuel : Nat) (w w' : World) (op : Op)
       subst hc
       cases e1 <;> rfl
     · intro p hp; simp [Op.sees, Op.target, Op.source] at hp
-  | read p path fs top =>
+  | read p path fs top lim =>
     have hp := h p (Or.inl rfl)
     have hr := readProblem_indep fuel (w.queue (queueKey codeCfg path)) (w'.queue (queueKey codeCfg path)) w.log w'.log fs top
     simp only [step]
@@ -428,7 +508,7 @@ theorem C17_isolate_result (fuel : Nat) (w w' : World) (op : Op)
     have ha := h a (Or.inr rfl)
     have hb := h b (Or.inl rfl)
     simp only [step]
-    rw [← ha]
+    rw [← ha, ← hI]
     cases hsrc : w.problems a with
     | none =>
       refine ⟨rfl, ?_⟩
@@ -438,16 +518,26 @@ theorem C17_isolate_result (fuel : Nat) (w w' : World) (op : Op)
       · exact hb
       · exact ha
     | some pr =>
-      refine ⟨rfl, ?_⟩
-      intro x hx
-      simp only [setProblem]
-      by_cases hxb : x = b
-      · simp [hxb]
-      · simp only [hxb, if_false]
+      simp only
+      by_cases hfit : pr.all (fun cd => w.interp.copyFits cd.depth) = true
+      · rw [if_pos hfit, if_pos hfit]
+        refine ⟨rfl, ?_⟩
+        intro x hx
+        simp only [setProblem]
+        by_cases hxb : x = b
+        · simp [hxb]
+        · simp only [hxb, if_false]
+          simp only [Op.sees, Op.target, Op.source, Option.some.injEq] at hx
+          rcases hx with hx | hx
+          · exact absurd hx.symm hxb
+          · subst hx; exact ha
+      · rw [if_neg hfit, if_neg hfit]
+        refine ⟨rfl, ?_⟩
+        intro x hx
         simp only [Op.sees, Op.target, Op.source, Option.some.injEq] at hx
-        rcases hx with hx | hx
-        · exact absurd hx.symm hxb
-        · subst hx; exact ha
+        rcases hx with hx | hx <;> subst hx
+        · exact hb
+        · exact ha
   | write p =>
     have hp := h p (Or.inl rfl)
     simp only [step]
@@ -467,9 +557,9 @@ theorem C17_isolate_result (fuel : Nat) (w w' : World) (op : Op)
 /-- non-vacuity: two worlds that agree on problem 0 and differ in everything else (queue, log, closure cells, another
     problem), and an operation on problem 0 that really does something -/
 example :
-    let w : World := (run codeCfg 8 World.fresh [.read 0 0 [(0, [.card ⟨1, 1, 1, false⟩])] 0]).1
+    let w : World := (run codeCfg 8 World.fresh [.read 0 0 [(0, [.card ⟨1, 1, 1, false, 0⟩])] 0]).1
     let w' : World := (run codeCfg 8 World.fresh
-      [.read 0 0 [(0, [.card ⟨1, 1, 1, false⟩])] 0, .read 1 1 [(0, [.card ⟨5, 1, 1, false⟩])] 0,
+      [.read 0 0 [(0, [.card ⟨1, 1, 1, false, 0⟩])] 0, .read 1 1 [(0, [.card ⟨5, 1, 1, false, 0⟩])] 0,
        .read 2 2 [(0, [.read 8 .ok, .read 9 .ok])] 0, .read 2 2 [(0, [.bad .logThenRaise])] 0]).1
     w.problems 0 = w'.problems 0 ∧ w'.log ≠ w.log ∧ w'.problems 1 ≠ w.problems 1 ∧
     (step codeCfg 8 w (.setImp 0 0 7)).2 = .ok ∧
@@ -486,31 +576,34 @@ theorem run_frame (c : Cfg) (fuel : Nat) (ops : List Op) (w : World) (B : Proble
     rw [ih _ (fun o ho => h o (List.mem_cons_of_mem _ ho))]
     exact C17_isolate_frame c fuel w op B (h op (List.mem_cons_self ..))
 
-/-- C17_copy: after `C = copy.deepcopy(A)`, any history that does not assign or edit A leaves A as it was (in
+/-- C17_copy: after `C = copy.deepcopy(A)` (when it succeeds: no RecursionError, A exists), any history that does not assign or edit A leaves A as it was (in
     particular every history of operations on C), and any history that does not assign or edit C leaves C as the copy
     was made; the copy starts out equal to the original.  (Assumption of the model: deepcopy is a value clone.) -/
 theorem C17_copy (c : Cfg) (fuel : Nat) (w : World) (A C : ProblemId) (hAC : A ≠ C) (ops : List Op) :
     let w1 := (step c fuel w (.deepcopy A C)).1
     w1.problems A = w.problems A ∧
-    (w.problems A ≠ none → w1.problems C = w.problems A) ∧
+    ((step c fuel w (.deepcopy A C)).2 = .ok → w1.problems C = w.problems A) ∧
     ((∀ op ∈ ops, op.target ≠ some A) → (run c fuel w1 ops).1.problems A = w.problems A) ∧
     ((∀ op ∈ ops, op.target ≠ some C) → (run c fuel w1 ops).1.problems C = w1.problems C) := by
   intro w1
   have hA : w1.problems A = w.problems A :=
     C17_isolate_frame c fuel w (.deepcopy A C) A (by simp [Op.target]; exact fun e => hAC e.symm)
   refine ⟨hA, ?_, ?_, ?_⟩
-  · intro hne
-    show (step c fuel w (.deepcopy A C)).1.problems C = w.problems A
+  · show (step c fuel w (.deepcopy A C)).2 = .ok → (step c fuel w (.deepcopy A C)).1.problems C = w.problems A
     simp only [step]
     cases hsrc : w.problems A with
-    | none => exact absurd hsrc hne
-    | some pr => simp [setProblem]
+    | none => simp
+    | some pr =>
+      simp only
+      split
+      · simp [setProblem]
+      · simp
   · intro h; rw [run_frame c fuel ops w1 A h, hA]
   · intro h; exact run_frame c fuel ops w1 C h
 
 /-- non-vacuity: the copy is edited and written, the original still writes what it wrote before -/
 example :
-    let w := (step codeCfg 8 World.fresh (.read 0 0 [(0, [.card ⟨1, 1, 1, false⟩])] 0)).1
+    let w := (step codeCfg 8 World.fresh (.read 0 0 [(0, [.card ⟨1, 1, 1, false, 0⟩])] 0)).1
     let w2 := (run codeCfg 8 w [.deepcopy 0 1, .setImp 1 0 9, .write 1]).1
     (step codeCfg 8 w2 (.write 0)).2 = .written [(1, 1, 1)] ∧ (step codeCfg 8 w2 (.write 1)).2 = .written [(1, 9, 1)] := by
   decide
@@ -520,7 +613,7 @@ example :
 theorem C17_prefix (fuel : Nat) (w : World) (pre : List Op) (op : Op)
     (hpre : ∀ o ∈ pre, ∀ p, op.sees p → o.target ≠ some p) :
     (step codeCfg fuel (run codeCfg fuel w pre).1 op).2 = (step codeCfg fuel w op).2 := by
-  apply (C17_isolate_result fuel _ _ op _).1
+  apply (C17_isolate_result fuel _ _ op _ (C17_interp_reachable fuel pre w)).1
   intro p hp
   exact run_frame codeCfg fuel pre w p (fun o ho => hpre o ho p hp)
 
@@ -546,7 +639,7 @@ def closedUnderSources (R : ProblemId → Bool) (ops : List Op) : Prop :=
   ∀ op ∈ ops, relevant R op = true → ∀ src, op.source = some src → R src = true
 
 theorem interleave_aux (fuel : Nat) (R : ProblemId → Bool) (ops : List Op) (hcl : closedUnderSources R ops)
-    (w w' : World) (hag : ∀ p, R p = true → w.problems p = w'.problems p) :
+    (w w' : World) (hag : ∀ p, R p = true → w.problems p = w'.problems p) (hI : w.interp = w'.interp) :
     observed R ops (run codeCfg fuel w ops).2 = (run codeCfg fuel w' (ops.filter (relevant R))).2 ∧
     ∀ p, R p = true →
       (run codeCfg fuel w ops).1.problems p = (run codeCfg fuel w' (ops.filter (relevant R))).1.problems p := by
@@ -561,7 +654,9 @@ theorem interleave_aux (fuel : Nat) (R : ProblemId → Bool) (ops : List Op) (hc
         rcases hp with hp | hp
         · simpa [relevant, hp] using hrel
         · exact hcl op (List.mem_cons_self ..) hrel p hp
-      have hstep := C17_isolate_result fuel w w' op (fun p hp => hag p (hsees p hp))
+      have hstep := C17_isolate_result fuel w w' op (fun p hp => hag p (hsees p hp)) hI
+      have hI' : (step codeCfg fuel w op).1.interp = (step codeCfg fuel w' op).1.interp := by
+        rw [C17_interp, C17_interp]; exact hI
       have hag' : ∀ p, R p = true →
           (step codeCfg fuel w op).1.problems p = (step codeCfg fuel w' op).1.problems p := by
         intro p hRp
@@ -570,7 +665,7 @@ theorem interleave_aux (fuel : Nat) (R : ProblemId → Bool) (ops : List Op) (hc
         · have ht : op.target ≠ some p := fun e => hs (Or.inl e)
           rw [C17_isolate_frame codeCfg fuel w op p ht, C17_isolate_frame codeCfg fuel w' op p ht]
           exact hag p hRp
-      obtain ⟨ih1, ih2⟩ := ih hcl' _ _ hag'
+      obtain ⟨ih1, ih2⟩ := ih hcl' _ _ hag' hI'
       simp only [List.filter_cons, hrel, if_true, run, observed]
       exact ⟨by rw [hstep.1, ih1], ih2⟩
     · -- an operation on an unrelated problem: it is left out, and the family's problems are untouched
@@ -582,7 +677,7 @@ theorem interleave_aux (fuel : Nat) (R : ProblemId → Bool) (ops : List Op) (hc
           simp [relevant, e, hRp]
         rw [C17_isolate_frame codeCfg fuel w op p ht]
         exact hag p hRp
-      obtain ⟨ih1, ih2⟩ := ih hcl' _ _ hag'
+      obtain ⟨ih1, ih2⟩ := ih hcl' _ _ hag' (by rw [C17_interp]; exact hI)
       simp only [List.filter_cons, hrel, run, observed]
       exact ⟨ih1, ih2⟩
 
@@ -594,13 +689,13 @@ theorem C17_interleave (fuel : Nat) (R : ProblemId → Bool) (ops : List Op) (hc
     observed R ops (run codeCfg fuel w ops).2 = (run codeCfg fuel w (ops.filter (relevant R))).2 ∧
     ∀ p, R p = true →
       (run codeCfg fuel w ops).1.problems p = (run codeCfg fuel w (ops.filter (relevant R))).1.problems p :=
-  interleave_aux fuel R ops hcl w w (fun _ _ => rfl)
+  interleave_aux fuel R ops hcl w w (fun _ _ => rfl) rfl
 
 /-- non-vacuity: a history where problem 1's reads fail in three ways (leaving queue and log dirty), a copy of 0 is
     edited, setters are called; family {0} is closed and its observed results are non-trivial -/
 example :
     let ops : List Op :=
-      [.read 1 1 [(0, [.read 8 .ok, .read 9 .ok])] 0, .read 0 0 [(0, [.read 1 .ok, .card ⟨1, 1, 1, false⟩]), (1, [.card ⟨2, 0, 1, false⟩])] 0,
+      [.read 1 1 [(0, [.read 8 .ok, .read 9 .ok])] 0, .read 0 0 [(0, [.read 1 .ok, .card ⟨1, 1, 1, false, 0⟩]), (1, [.card ⟨2, 0, 1, false, 0⟩])] 0,
        .read 1 1 [(0, [.bad .logThenRaise])] 0, .deepcopy 0 2, .setImp 2 0 9, .setter ⟨0, .selfType⟩ 1 ⟨1, [1]⟩,
        .setVol 0 1 4, .write 2, .write 0]
     let R : ProblemId → Bool := fun p => p == 0
